@@ -843,8 +843,26 @@ impl Server {
             (Some(_), false) => {
                 // a response was prepared but the error has no code: cannot
                 // be rendered as 4.xx/5.xx
-                if ret || req.response != *before {
-                    self.violations.push(Violation::new("C07", "error-result", "apply_from_error without a code reported success or changed the response".into()));
+                // no code to apply: failure is reported; whatever is done to
+                // the reply meanwhile may touch only code, payload and
+                // content format (the property does not say "left unchanged")
+                if ret {
+                    self.violations.push(Violation::new("C07", "error-result", "apply_from_error reported success although the error carries no code".into()));
+                }
+                match (before, req.response.as_ref()) {
+                    (Some(b), Some(a)) => {
+                        let (bm, am) = (&b.message, &a.message);
+                        let strip = |p: &Packet| -> Vec<(u32, Vec<u8>)> { flat_opts(p).into_iter().filter(|(n, _)| *n != 12).collect() };
+                        if bm.header.get_type() != am.header.get_type()
+                            || bm.header.get_version() != am.header.get_version()
+                            || bm.header.message_id != am.header.message_id
+                            || bm.get_token() != am.get_token()
+                            || strip(bm) != strip(am)
+                        {
+                            self.violations.push(Violation::new("C07", "error-preserves", "apply_from_error (error without a code) changed more than code, payload and content format".into()));
+                        }
+                    }
+                    _ => self.violations.push(Violation::new("C07", "error-preserves", "the prepared response vanished in apply_from_error (error without a code)".into())),
                 }
                 self.violations.push(Violation::new("C11", "renderable", "handler returned an error without a code although a response was prepared".into()));
             }
